@@ -2,8 +2,10 @@ package main
 
 import (
 	"flag"
-	"go/types"
+
 	"fmt"
+	"go/types"
+	"golang.org/x/tools/go/ssa"
 	"os"
 	"path/filepath"
 	"sort"
@@ -147,6 +149,18 @@ func cmdVerify(pat string, to int, dump, verbose bool) int {
 		byMod[m] = append(byMod[m], c)
 	}
 	code := 0
+	// pure lemmas matching the pattern are proved with the client module loaded
+	var lms []*Lemma
+	for _, lm := range db.Lemmas {
+		if !lm.Axiom && strings.Contains("lemma:"+lm.Name, pat) {
+			lms = append(lms, lm)
+		}
+	}
+	if len(lms) > 0 {
+		if _, ok := byMod[filepath.Join(repoRoot, "client")]; !ok {
+			byMod[filepath.Join(repoRoot, "client")] = nil
+		}
+	}
 	for mod, cs := range byMod {
 		pkgs := map[string]bool{}
 		for _, c := range cs {
@@ -161,6 +175,18 @@ func cmdVerify(pat string, to int, dump, verbose bool) int {
 		fmt.Printf("loaded %s %v in %.1fs\n", mod, pats, time.Since(t0).Seconds())
 		sort.Slice(cs, func(i, j int) bool { return cs[i].Name < cs[j].Name })
 		var frs []*FuncResult
+		if mod == filepath.Join(repoRoot, "client") {
+			for _, lm := range lms {
+				var anyFn *ssa.Function
+				for _, f := range eng.fnIndex {
+					if f.Pkg != nil && f.Pkg.Pkg.Path() == lm.Pkg {
+						anyFn = f
+						break
+					}
+				}
+				frs = append(frs, eng.verifyLemma(lm, anyFn))
+			}
+		}
 		for _, c := range cs {
 			fns := eng.targets(c)
 			if len(fns) == 0 {
